@@ -9,8 +9,23 @@
 //   (c) every point of a Fibonacci sphere of radius 0.999 s around the point is located by
 //       the independent oracle in the same volume at every level [".. a sphere of that
 //       radius contains only points of the same volume"].
+//   (d) at points the oracle placed at distance delta from a surface point X behind which it
+//       locates another volume (oracle/geo_samples.hh): s <= delta + probe (the true distance to
+//       the nearest boundary is at most |p - X|), and the direction towards X joins alphabet (b).
 // find_safety(max) (documented as the same quantity restricted to nearby surfaces) must obey
-// the same bounds.
+// the same bounds, for a max above and a max below the safety.
+// (4) exactly degenerate points of the stored surfaces (sphere centres, points on cylinder axes of
+// every universe instance): ordinary interior points where the surface normal does not exist.
+// An INFINITE safety is judged like any other value: (b) fails for every finite distance.  Only
+// when every direction of the alphabet is unbounded as well is it tagged and accepted.
+//
+// Points: (1) n^3 offset lattice over the probe box; (2) one representative per distinct oracle
+// chain (every volume of every nested universe instance the oracle scan finds: small volumes
+// through per-universe critical-coordinate grids); (3) next to every face of the located volume
+// at every level, both sides, two or three distances.  (1)+(2) also contribute the midpoints of
+// the first 3 segments along 3 rays, reached by navigation (find, move_internal(d/2)); there
+// the navigated state must report the same safety as a fresh state, also after a following
+// move_internal(position) and set_dir.
 #include <cmath>
 #include <string>
 #include <vector>
@@ -18,6 +33,7 @@
 #include "orange/detail/LevelStateAccessor.hh"
 #include "engine/harness.hh"
 #include "oracle/geo_oracle.hh"
+#include "oracle/geo_samples.hh"
 #include "problems/geo_zoo.hh"
 
 using namespace celeritas;
@@ -78,11 +94,50 @@ struct Ctx
     std::vector<D3> const& sphere;
 };
 
-// Evaluate the three claims at point p (already known to be unambiguously inside `loc0`)
-static void check_point(Ctx& c, D3 const& p, OLocation const& loc0, std::string const& cid,
-                        char const* how)
+//! Extra knowledge about an oracle-placed point: a surface point X at distance `delta` in
+//! direction `toward`, behind which (at delta + probe) the oracle locates another volume
+struct Known
 {
-    vf::Run& R = c.R;
+    bool have{false};
+    D3 toward{};
+    double delta{0}, probe{0};
+    bool confirmed{false};
+    std::string what;
+};
+
+//! With a Verdict the violation is returned to the caller instead of being reported
+struct Verdict
+{
+    bool violated{false};
+    std::string sig, msg;
+};
+
+// Evaluate the claims at point p (already known to be unambiguously inside `loc0`)
+static void check_point(Ctx& c, D3 const& p, OLocation const& loc0, std::string const& cid,
+                        char const* how, Known const* known = nullptr, Verdict* verdict = nullptr)
+{
+    vf::Run& R0 = c.R;
+    // local reporter: same interface as the two Run calls used below
+    struct Rep
+    {
+        vf::Run& R;
+        Verdict* v;
+        void violation(std::string const& sig, std::string const& cid, std::string const& msg)
+        {
+            if (v)
+            {
+                v->violated = true;
+                v->sig = sig;
+                v->msg = msg;
+            }
+            else
+                R.violation(sig, cid, msg);
+        }
+        void count(char const* k, uint64_t n = 1) { R.count(k, n); }
+        void tag(std::string const& t) { R.tag(t); }
+        void nontrivial(uint64_t h) { R.nontrivial(h); }
+        void harness_error(std::string const& m) { R.harness_error(m); }
+    } R{R0, verdict};
     auto v = c.env.view(0);
     D3 d0 = c.dirs[0];
     v = GeoTrackInitializer{Real3{p[0], p[1], p[2]}, Real3{d0[0], d0[1], d0[2]}};
@@ -95,47 +150,75 @@ static void check_point(Ctx& c, D3 const& p, OLocation const& loc0, std::string 
     std::string here = chain_of(loc0);
     double s = v.find_safety();
     double s2 = v.find_safety(0.5 * c.scale);
-    R.count("transitions", 2);
+    // a limit BELOW the safety (when it is finite and positive)
+    double s3 = (std::isfinite(s) && s > 0) ? v.find_safety(0.1 * s) : s;
+    R.count("transitions", 3);
     R.count("evaluations");
-    if (!(s >= 0) || !(s2 >= 0))
+    if (!(s >= 0) || !(s2 >= 0) || !(s3 >= 0))
     {
         R.violation("safety:negative-or-nan", cid,
-                    fmt("geometry %s point %s (%s): find_safety=%g find_safety(max)=%g",
-                        c.env.name.c_str(), d3s(p).c_str(), how, s, s2));
+                    fmt("geometry %s point %s (%s): find_safety=%g find_safety(max)=%g "
+                        "find_safety(0.1 s)=%g",
+                        c.env.name.c_str(), d3s(p).c_str(), how, s, s2, s3));
         return;
     }
-    double sm = std::max(s, std::isfinite(s2) ? s2 : 0.0);
-    if (!std::isfinite(s))
-    {
-        R.tag("safety:infinite");
-        sm = std::isfinite(s2) ? s2 : 0;
-    }
+    // every reported value is a claim: judge the largest (an infinite one included)
+    double sm = std::max({s, s2, s3});
     if (sm == 0)
         R.tag("safety:zero(no simple safety)");
     else
     {
-        R.tag("safety:positive");
+        R.tag(std::isfinite(sm) ? "safety:positive" : "safety:infinite-claimed");
         R.nontrivial(vf::hash_mix(vf::hash_str(c.env.name), vf::hash_str(here)));
     }
-    // (b) navigator's own distances
-    for (size_t di = 0; di < c.dirs.size(); ++di)
+    // (d) exact bound from the oracle's surface point
+    if (known && known->have && known->confirmed)
     {
-        D3 d = c.dirs[di];
+        R.count("known_boundary_bounds");
+        double bound = (known->delta + known->probe) * (1 + 1e-9);
+        if (sm > bound)
+        {
+            R.violation("safety:exceeds-distance-to-known-boundary-point", cid,
+                        fmt("geometry %s point %s (%s) in %s: safety %.17g (find_safety(max) %.17g, "
+                            "%.17g) but %s lies at distance %.17g along %s and the oracle locates "
+                            "another volume %.3g behind it",
+                            c.env.name.c_str(), d3s(p).c_str(), how, here.c_str(), s, s2, s3,
+                            known->what.c_str(), known->delta, d3s(known->toward).c_str(),
+                            known->probe));
+            return;
+        }
+    }
+    // (b) navigator's own distances
+    bool any_finite = false;
+    size_t const ndir = c.dirs.size() + ((known && known->have) ? 1 : 0);
+    for (size_t di = 0; di < ndir; ++di)
+    {
+        D3 d = di < c.dirs.size() ? c.dirs[di] : known->toward;
         v = GeoTrackInitializer{Real3{p[0], p[1], p[2]}, Real3{d[0], d[1], d[2]}};
         Propagation prop = v.find_next_step();
         R.count("transitions");
+        any_finite = any_finite || std::isfinite(prop.distance);
+        // (for sm = inf: inf * (1 - 1e-10) = inf, every finite distance violates)
         if (prop.distance < sm * (1 - 1e-10))
         {
             R.violation("safety:exceeds-distance-to-boundary", cid,
                         fmt("geometry %s point %s (%s) in %s: safety %.17g (find_safety(max) "
-                            "%.17g) but along %s the boundary is at %.17g",
-                            c.env.name.c_str(), d3s(p).c_str(), how, here.c_str(), s, s2,
+                            "%.17g, %.17g) but along %s the boundary is at %.17g",
+                            c.env.name.c_str(), d3s(p).c_str(), how, here.c_str(), s, s2, s3,
                             d3s(d).c_str(), prop.distance));
             return;
         }
     }
+    if (!std::isfinite(sm))
+    {
+        // reached only when no direction of the alphabet meets a boundary at all
+        R.tag("safety:infinite(unbounded in every direction of the alphabet)");
+        if (any_finite)
+            R.harness_error("infinite safety passed the distance comparison");
+        return;
+    }
     // (c) oracle: the sphere of radius 0.999 sm lies in the same volume chain
-    if (sm > 0 && std::isfinite(sm))
+    if (sm > 0)
     {
         double r = 0.999 * sm;
         for (auto const& u : c.sphere)
@@ -162,108 +245,256 @@ static void check_point(Ctx& c, D3 const& p, OLocation const& loc0, std::string 
     }
 }
 
+//! The navigated state must report the same safety as a freshly initialised one
+static void compare_fresh(Ctx& c, OrangeTrackView& v, D3 const& d, std::string const& cid,
+                          char const* after)
+{
+    D3 q = {v.pos()[0], v.pos()[1], v.pos()[2]};
+    double s = v.find_safety();
+    auto w = c.env.view(1);
+    w = GeoTrackInitializer{Real3{q[0], q[1], q[2]}, Real3{d[0], d[1], d[2]}};
+    if (w.failed())
+        return;
+    double sf = w.find_safety();
+    c.R.count("navigated_vs_fresh");
+    bool same = (s == sf) || std::fabs(s - sf) <= 1e-9 * c.scale * (1 + sf);
+    if (!same)
+    {
+        c.R.violation("safety:navigated-state-differs", cid,
+                      fmt("geometry %s at %s (%s): safety from navigated state %.17g, from fresh "
+                          "state %.17g",
+                          c.env.name.c_str(), d3s(q).c_str(), after, s, sf));
+    }
+}
+
+//! A lattice point / chain representative: the point itself + points reached by navigation
+static void run_point(Ctx& c, D3 const& p, OLocation const& l0, std::string const& cid,
+                      char const* how)
+{
+    vf::Run& R = c.R;
+    GeoEnv* env = &c.env;
+    auto const& dirs = c.dirs;
+    check_point(c, p, l0, cid, how);
+    // points reached by navigation: midpoints of the first segments along 3 rays
+    for (size_t di : {size_t(0), size_t(13), dirs.size() - 1})
+    {
+        auto v = env->view(0);
+        D3 d = dirs[di];
+        v = GeoTrackInitializer{Real3{p[0], p[1], p[2]}, Real3{d[0], d[1], d[2]}};
+        for (int seg = 0; seg < 3 && !v.is_outside() && !v.failed(); ++seg)
+        {
+            Propagation prop = v.find_next_step();
+            if (!prop.boundary || !(prop.distance > 0))
+                break;
+            if (prop.distance > 20 * c.eps_amb)
+            {
+                v.move_internal(0.5 * prop.distance);
+                D3 q = {v.pos()[0], v.pos()[1], v.pos()[2]};
+                OLocation lq = env->oracle->locate(q, c.eps_amb);
+                if (lq.status == OLocation::ok && !lq.outside)
+                {
+                    R.tag("point:navigated");
+                    // safety from the *navigated* state (not re-initialised)
+                    compare_fresh(c, v, d, cid, "after find_next_step, move_internal(d/2)");
+                    check_point(c, q, lq, cid, "segment midpoint");
+                    // ... and after the MSC-style displacement move_internal(position) (a
+                    // quarter of the remaining step, inside the same volume) and a set_dir
+                    v = GeoTrackInitializer{Real3{q[0], q[1], q[2]}, Real3{d[0], d[1], d[2]}};
+                    Propagation p2 = v.find_next_step();
+                    if (p2.boundary && p2.distance > 20 * c.eps_amb)
+                    {
+                        D3 q2 = {q[0] + 0.25 * p2.distance * d[0], q[1] + 0.25 * p2.distance * d[1],
+                                 q[2] + 0.25 * p2.distance * d[2]};
+                        OLocation l2 = env->oracle->locate(q2, c.eps_amb);
+                        if (l2.status == OLocation::ok && chain_of(l2) == chain_of(lq))
+                        {
+                            v.move_internal(Real3{q2[0], q2[1], q2[2]});
+                            compare_fresh(c, v, d, cid, "after move_internal(position)");
+                            D3 nd = dirs[(di + 7) % dirs.size()];
+                            v.set_dir(Real3{nd[0], nd[1], nd[2]});
+                            compare_fresh(c, v, nd, cid, "after move_internal(position), set_dir");
+                        }
+                    }
+                }
+                v = GeoTrackInitializer{Real3{q[0], q[1], q[2]}, Real3{d[0], d[1], d[2]}};
+                prop = v.find_next_step();
+                if (!prop.boundary)
+                    break;
+            }
+            v.move_to_boundary();
+            v.cross_boundary();
+        }
+    }
+}
+
+static char const* surface_type_name(vf::GeoOracle const& o, int universe, int surface)
+{
+    if (surface < 0)
+        return "array-wall";
+    return celeritas::to_cstring(o.universe(universe).surfaces[surface].type);
+}
+
 int main(int argc, char** argv)
 {
     vf::Run R(argc, argv, "C11", "c11_safety");
     bool const thorough = R.thorough();
-    auto zoo = vf::zoo_entries(true);
+    auto zoo = vf::zoo_entries(true, true);
     int const n = thorough ? 9 : 5;
     auto dirs = directions(thorough);
     auto sphere = fibonacci(thorough ? 200 : 64);
+    vf::OSampleOptions sopt;
+    sopt.lattice = 17;
+    sopt.per_face = thorough ? 4 : 1;
+    if (thorough)
+    {
+        sopt.lattice = 31;
+        sopt.cand_per_chain = 48;
+        sopt.deltas = {0.001, 0.003, 0.02, 0.08};
+    }
     uint64_t outer = 0;
     for (size_t gi = 0; gi < zoo.size(); ++gi)
     {
+        if (R.expired())
+            break;
+        // every shard needs the geometry: the oracle-placed points are enumerated from it
         std::unique_ptr<GeoEnv> env;
-        for (int ip = 0; ip < n * n * n; ++ip, ++outer)
+        try
+        {
+            env = vf::zoo_make(zoo[gi]);
+        }
+        catch (std::exception const& e)
+        {
+            R.tag("geometry-load-failed:" + zoo[gi].name);
+            continue;
+        }
+        if (!env->oracle->supported() || env->oracle->has_duplicate_surfaces())
+        {
+            R.tag("geometry-not-judged:" + zoo[gi].name);
+            continue;
+        }
+        R.tag("geometry:" + zoo[gi].name);
+        double scale = env->scale();
+        double tol = std::max(env->oracle->tol_abs(), env->oracle->tol_rel() * scale);
+        Ctx c{R, *env, scale, 10 * tol, dirs, sphere};
+        auto samples = vf::oracle_samples(*env->oracle, env->lo, env->hi, c.eps_amb, scale, sopt);
+        auto degen = vf::degenerate_points(*env->oracle, env->lo, env->hi, scale);
+        int const nlat = n * n * n;
+        int const total = nlat + int(samples.size()) + int(degen.size());
+        for (int ip = 0; ip < total; ++ip, ++outer)
         {
             if (!R.mine(outer))
                 continue;
             if (R.expired())
                 break;
-            if (!env)
+            if (ip >= nlat + int(samples.size()))
             {
-                try
+                // exactly degenerate point of a stored surface (sphere centre / cylinder axis)
+                int k = ip - nlat - int(samples.size());
+                vf::ODegenerate const& dg = degen[k];
+                std::string cid = fmt("safety:%s:degenerate=%d", zoo[gi].name.c_str(), k);
+                if (!R.want(cid))
+                    continue;
+                OLocation l0 = env->oracle->locate(dg.p, c.eps_amb);
+                if (l0.status != OLocation::ok || l0.outside)
                 {
-                    env = vf::zoo_make(zoo[gi]);
+                    R.count("starts_skipped");
+                    continue;
                 }
-                catch (std::exception const& e)
+                R.begin_case(cid, 60);
+                R.tag(dg.axis ? "point:on-cylinder-axis" : "point:sphere-centre");
+                R.count("degenerate_points");
+                Verdict a;
+                check_point(c, dg.p, l0, cid, dg.axis ? "exactly on a cylinder axis" : "exactly at a sphere centre",
+                            nullptr, &a);
+                if (a.violated)
                 {
-                    R.tag("geometry-load-failed:" + zoo[gi].name);
-                    break;
+                    // the same claims 1e-6 x scale beside the point (off the axis / centre): if they
+                    // hold there, the failure belongs to the degenerate-normal branch alone
+                    D3 q = {dg.p[0] + 0.61e-6 * scale, dg.p[1] - 0.53e-6 * scale, dg.p[2] + 0.59e-6 * scale};
+                    OLocation lq = env->oracle->locate(q, c.eps_amb);
+                    Verdict b;
+                    if (lq.status == OLocation::ok && chain_of(lq) == chain_of(l0))
+                        check_point(c, q, lq, cid, "beside the degenerate point", nullptr, &b);
+                    else
+                        b.violated = true;  // cannot tell: keep the generic signature
+                    if (!b.violated)
+                        R.violation("safety:face-ignored-at-exact-" + std::string(dg.axis ? "cylinder-axis" : "sphere-centre"),
+                                    cid,
+                                    a.msg + fmt(" [surface %d (%s) of universe %d; the claims hold 1e-6 x "
+                                                "scale beside the point]",
+                                                dg.surface,
+                                                celeritas::to_cstring(
+                                                    env->oracle->universe(dg.universe).surfaces[dg.surface].type),
+                                                dg.universe));
+                    else
+                        R.violation(a.sig, cid, a.msg);
                 }
-                if (!env->oracle->supported() || env->oracle->has_duplicate_surfaces())
-                {
-                    R.tag("geometry-not-judged:" + zoo[gi].name);
-                    break;
-                }
-                R.tag("geometry:" + zoo[gi].name);
-            }
-            double scale = env->scale();
-            double tol = std::max(env->oracle->tol_abs(), env->oracle->tol_rel() * scale);
-            Ctx c{R, *env, scale, 10 * tol, dirs, sphere};
-            int ix = ip / (n * n), iy = (ip / n) % n, iz = ip % n;
-            D3 p = {env->lo[0] + (ix + 0.5 + 0.0137) / n * (env->hi[0] - env->lo[0]),
-                    env->lo[1] + (iy + 0.5 - 0.0271) / n * (env->hi[1] - env->lo[1]),
-                    env->lo[2] + (iz + 0.5 + 0.0319) / n * (env->hi[2] - env->lo[2])};
-            std::string cid = fmt("safety:%s:p=%d", zoo[gi].name.c_str(), ip);
-            if (!R.want(cid))
+                R.end_case();
                 continue;
-            OLocation l0 = env->oracle->locate(p, c.eps_amb);
+            }
+            if (ip < nlat)
+            {
+                int ix = ip / (n * n), iy = (ip / n) % n, iz = ip % n;
+                D3 p = {env->lo[0] + (ix + 0.5 + 0.0137) / n * (env->hi[0] - env->lo[0]),
+                        env->lo[1] + (iy + 0.5 - 0.0271) / n * (env->hi[1] - env->lo[1]),
+                        env->lo[2] + (iz + 0.5 + 0.0319) / n * (env->hi[2] - env->lo[2])};
+                std::string cid = fmt("safety:%s:p=%d", zoo[gi].name.c_str(), ip);
+                if (!R.want(cid))
+                    continue;
+                OLocation l0 = env->oracle->locate(p, c.eps_amb);
+                if (l0.status != OLocation::ok || l0.outside)
+                {
+                    R.count("starts_skipped");
+                    continue;
+                }
+                R.begin_case(cid, 60);
+                run_point(c, p, l0, cid, "lattice point");
+                R.end_case();
+                continue;
+            }
+            vf::OSample const& sm = samples[ip - nlat];
+            OLocation l0 = env->oracle->locate(sm.p, c.eps_amb);
             if (l0.status != OLocation::ok || l0.outside)
+                R.harness_error("oracle sample is not located unambiguously");
+            if (sm.kind == vf::OSample::chain_rep)
             {
-                R.count("starts_skipped");
-                continue;
+                std::string cid = fmt("safety:%s:chain=%d", zoo[gi].name.c_str(), ip - nlat);
+                if (!R.want(cid))
+                    continue;
+                R.begin_case(cid, 60);
+                R.tag(fmt("point:chain-representative:depth=%zu", l0.levels.size()));
+                R.count("chain_representatives");
+                run_point(c, sm.p, l0, cid, "chain representative");
+                R.end_case();
             }
-            R.begin_case(cid, 60);
-            check_point(c, p, l0, cid, "lattice point");
-            // points reached by navigation: midpoints of the first segments along 3 rays
-            for (size_t di : {size_t(0), size_t(13), dirs.size() - 1})
+            else
             {
-                auto v = env->view(0);
-                D3 d = dirs[di];
-                v = GeoTrackInitializer{Real3{p[0], p[1], p[2]}, Real3{d[0], d[1], d[2]}};
-                for (int seg = 0; seg < 3 && !v.is_outside() && !v.failed(); ++seg)
-                {
-                    Propagation prop = v.find_next_step();
-                    if (!prop.boundary || !(prop.distance > 0))
-                        break;
-                    if (prop.distance > 20 * c.eps_amb)
-                    {
-                        v.move_internal(0.5 * prop.distance);
-                        D3 q = {v.pos()[0], v.pos()[1], v.pos()[2]};
-                        // safety from the *navigated* state (not re-initialised)
-                        double s = v.find_safety();
-                        OLocation lq = env->oracle->locate(q, c.eps_amb);
-                        if (lq.status == OLocation::ok && !lq.outside)
-                        {
-                            R.tag("point:navigated");
-                            // the navigated state must report the same safety as a fresh one
-                            auto w = env->view(1);
-                            w = GeoTrackInitializer{Real3{q[0], q[1], q[2]}, Real3{d[0], d[1], d[2]}};
-                            double sf = w.find_safety();
-                            if (!w.failed() && std::fabs(s - sf) > 1e-9 * scale * (1 + sf))
-                            {
-                                R.violation("safety:navigated-state-differs", cid,
-                                            fmt("geometry %s at %s: safety from navigated state "
-                                                "%.17g, from fresh state %.17g",
-                                                env->name.c_str(), d3s(q).c_str(), s, sf));
-                            }
-                            check_point(c, q, lq, cid, "segment midpoint");
-                        }
-                        v = GeoTrackInitializer{Real3{q[0], q[1], q[2]}, Real3{d[0], d[1], d[2]}};
-                        prop = v.find_next_step();
-                        if (!prop.boundary)
-                            break;
-                    }
-                    v.move_to_boundary();
-                    v.cross_boundary();
-                }
+                std::string cid = fmt("safety:%s:face=%d", zoo[gi].name.c_str(), ip - nlat);
+                if (!R.want(cid))
+                    continue;
+                R.begin_case(cid, 60);
+                char const* st = surface_type_name(*env->oracle, sm.universe, sm.surface);
+                R.tag(fmt("point:next-to-face:%s:level=%d", st, sm.level));
+                R.count("face_points");
+                Known k;
+                k.have = true;
+                k.toward = sm.toward;
+                k.delta = sm.delta;
+                k.probe = sm.probe;
+                k.confirmed = sm.boundary_confirmed;
+                k.what = fmt("the point %s of surface %d (%s) of universe %d (level %d)",
+                             d3s(sm.foot).c_str(), sm.surface, st, sm.universe, sm.level);
+                check_point(c, sm.p, l0, cid, "next to a face", &k);
+                R.end_case();
             }
-            R.end_case();
         }
     }
     R.sample("safety:g4:p=62 = lattice point 62 of the three-level geometry g4: find_safety vs "
              "find_next_step over the direction alphabet and vs the oracle on a Fibonacci sphere");
     R.sample("safety:simple-cms:p=31 + midpoints of the first 3 segments along 3 rays");
+    R.sample("safety:g4:chain=4 = oracle-placed representative of one volume chain of g4 (e.g. the "
+             "box inside the rotated leaf universe) + navigated midpoints");
+    R.sample("safety:g3.1:face=40 = oracle-placed point at 0.003/0.02 x scale from a face of the "
+             "located volume (here inside the rotated daughter), with the exact bound s <= delta");
     return R.finish();
 }
